@@ -297,6 +297,34 @@ func checkNesting(q string) error {
 	return nil
 }
 
+// checkRegexNesting refuses expressions whose groups are nested deeper than
+// maxNesting: binaryregexp simplifies and compiles an expression recursively,
+// and a stack overflow cannot be recovered from. Brackets in character classes
+// are not counted, everything else that looks like a group is.
+func checkRegexNesting(expr string) error {
+	depth, inClass := 0, false
+	for i := 0; i < len(expr); i++ {
+		switch c := expr[i]; {
+		case c == '\\':
+			i++
+		case inClass:
+			inClass = c != ']'
+		case c == '[':
+			inClass = true
+		case c == '(':
+			depth++
+			if depth > maxNesting {
+				return fmt.Errorf("regex is nested too deeply (more than %d levels of groups)", maxNesting)
+			}
+		case c == ')':
+			if depth != 0 {
+				depth--
+			}
+		}
+	}
+	return nil
+}
+
 func Parse(q string) (*Query, error) {
 	if err := checkNesting(q); err != nil {
 		return nil, err
